@@ -10,18 +10,25 @@ let int_of_z = function Z0 -> 0 | Zpos p -> int_of_pos p | Zneg p -> - (int_of_p
 
 let bytes_of_hex s = List.map n_of_int (Ocommon.bytes_of_hex s)
 let hex_of_bytes (b : bytes) = Ocommon.hex_of_bytes (List.map int_of_n b)
-let nums s = if s = "" then [] else List.map (fun x -> n_of_int (int_of_string x)) (String.split_on_char ',' s)
+(* "v*n" = n entries of v *)
+let nums s = if s = "" then [] else List.concat_map (fun x ->
+    match String.index_opt x '*' with
+    | None -> [n_of_int (int_of_string x)]
+    | Some p -> List.init (int_of_string (String.sub x (p+1) (String.length x - p - 1))) (fun _ -> n_of_int (int_of_string (String.sub x 0 p))))
+  (String.split_on_char ',' s)
 let items s = if s = "!" then [] else List.map bytes_of_hex (String.split_on_char ',' s)
 let show_msg (its : bytes list) =
   "(" ^ (if its = [] then "!" else String.concat "," (List.map hex_of_bytes its)) ^ ")"
 let b01 b = if b then "1" else "0"
 
 (* a machine: queue / output / input closures over mutable model state; the pipe is shared *)
-type mach = { q : string -> unit; o : n -> n list -> bytes * string; i : n -> n list -> bytes -> (string * string * string) * bytes }
+type mach = { h : unit -> bool;   (* the sender's HasBytesToOutput() *)
+              q : string -> unit; o : n -> n list -> bytes * string; i : n -> n list -> bytes -> (string * string * string) * bytes }
 
 let mk_frame maxin =
   let s = ref (fs_init ()) and r = ref (fr_init ()) in
-  { q = (fun a -> s := fs_queue !s (bytes_of_hex a));
+  { h = (fun () -> fs_has_bytes !s);
+    q = (fun a -> s := fs_queue !s (bytes_of_hex a));
     o = (fun maxb scr ->
           let (s', w) = d_do_output !s maxb scr in
           s := s';
@@ -43,6 +50,7 @@ let mk_mini_sends maxin =
   let f = mk_frame maxin in
   let s = ref ms_init in
   { f with
+    h = (fun () -> mg_has_bytes !s);
     q = (fun a -> s := ms_queue !s (bytes_of_hex a));
     o = (fun maxb scr ->
           let (s', w) = mg_do_output !s maxb scr in
@@ -75,7 +83,8 @@ let mk_zframe enc maxin (table : bytes array) =
     then (n_of_int (k+1), Some bodies.(k)) else (is, None) in
   let oenc = n_of_int (1164862256 + enc) in
   let s = ref (fs_init None) and r = ref (fr_init None) in
-  { q = (fun a -> s := fs_queue !s (bytes_of_hex a));
+  { h = (fun () -> fs_has_bytes !s);
+    q = (fun a -> s := fs_queue !s (bytes_of_hex a));
     o = (fun maxb scr ->
           let (s', w) = z_do_output (fun _ -> N0) deflate oenc false !s maxb scr in
           s := s';
@@ -118,7 +127,8 @@ let mk_tmpl maxin maxcache (table : tmsg list) =
   let s = ref (fs_init cache0) and r = ref (fr_init cache0) in
   let cache_obs (c : (n * ttpl) list * n) =
     String.concat "." (List.map (fun (k, _) -> decimal_of_n k) (fst c)) ^ "/" ^ decimal_of_n (snd c) in
-  { q = (fun _ -> let m = List.nth table !queue_ix in incr queue_ix; s := fs_queue !s m);
+  { h = (fun () -> fs_has_bytes !s);
+    q = (fun _ -> let m = List.nth table !queue_ix in incr queue_ix; s := fs_queue !s m);
     o = (fun maxb scr ->
           let (s', w) = tm_do_output (fun m -> m.t_triv) (fun m -> m.t_what) m_of_what (fun m -> m.t_id) m_tmpl (fun t -> t.p_size)
                           (fun m -> m.t_flat) m_tflat describes maxcache !s maxb scr in
@@ -149,7 +159,8 @@ let mk_ws ?(keys = []) client_sends maxin =
       if List.length pipe' = List.length pipe then (sl', outs @ o) else go sl' pipe' (outs @ o) in
     go sl payload [] in
   let s = ref (ws_init keys) and r = ref (wr_init (fr_init ())) in
-  { q = (fun a -> s := ws_queue !s (bytes_of_hex a));
+  { h = (fun () -> ws_has_bytes !s);
+    q = (fun a -> s := ws_queue !s (bytes_of_hex a));
     o = (fun maxb scr ->
           let (s', w) = ws_do_output sflat client_sends !s maxb scr in
           s := s';
@@ -168,7 +179,8 @@ let mk_ws ?(keys = []) client_sends maxin =
 
 let mk_text eol =
   let s = ref ts_init and r = ref tr_init in
-  { q = (fun a -> s := ts_queue !s (items a));
+  { h = (fun () -> ts_has_bytes !s);
+    q = (fun a -> s := ts_queue !s (items a));
     o = (fun maxb scr ->
           let (s', w) = t_do_output eol !s maxb scr in
           s := s';
@@ -188,7 +200,8 @@ let raw_out dout s = (fun maxb scr ->
 
 let mk_raw minc maxc =
   let s = ref rs_init and r = ref rr_init in
-  { q = (fun a -> s := rs_queue !s (items a));
+  { h = (fun () -> rs_has_bytes !s);
+    q = (fun a -> s := rs_queue !s (items a));
     o = raw_out raw_do_output s;
     i = (fun maxb scr pipe ->
           let ((r', outs), pipe') = r_do_input minc maxc !r maxb scr pipe in
@@ -198,7 +211,8 @@ let mk_raw minc maxc =
 
 let mk_slip () =
   let s = ref rs_init and r = ref sr_init in
-  { q = (fun a -> s := rs_queue !s (items a));
+  { h = (fun () -> rs_has_bytes !s);
+    q = (fun a -> s := rs_queue !s (items a));
     o = raw_out slip_do_output s;
     i = (fun maxb scr pipe ->
           let ((r', outs), pipe') = sl_do_input !r maxb scr pipe in
@@ -253,12 +267,12 @@ let () =
       List.iter (fun s ->
         if s <> "" then begin
           (match String.split_on_char ':' s with
-           | "q" :: rest -> m.q (nth rest 0 ""); Buffer.add_string buf "q"
+           | "q" :: rest -> m.q (nth rest 0 ""); Buffer.add_string buf (if m.h () then "q+" else "q-")
            | "x" :: rest -> pipe := !pipe @ bytes_of_hex (nth rest 0 ""); Buffer.add_string buf "x"
            | "o" :: mx :: rest ->
                let (w, obs) = m.o (n_of_int (int_of_string mx)) (nums (nth rest 0 "")) in
                pipe := !pipe @ w;
-               Buffer.add_string buf (Printf.sprintf "o%d:%s:%s" (List.length w) (hex_of_bytes w) obs)
+               Buffer.add_string buf (Printf.sprintf "o%d:%s:%s/%s" (List.length w) (hex_of_bytes w) obs (if m.h () then "h1" else "h0"))
            | "i" :: mx :: rest ->
                let ((ret, msgs, obs), pipe') = m.i (n_of_int (int_of_string mx)) (nums (nth rest 0 "")) !pipe in
                pipe := pipe';
